@@ -36,6 +36,8 @@ RULE = ("exhaustive product for connect(starttls=True/False/1): STARTTLS capabil
         "lists) with calls of random public callables (quick 1 500, thorough 100 000). "
         "Non-trivial = every case; distinct = distinct configurations / histories.")
 ASSUMPTIONS = [
+    "half of the connect calls pass their arguments positionally in the documented order "
+    "connect(login, password, authz_id, starttls, authmech) of the pinned API",
     "the transport records every byte written with the channel (plain/TLS) it was written on",
     "credential-bearing = the base64 or raw form of login / password / PLAIN payload",
     "private helpers (names starting with '_') that no public method reaches are not "
@@ -143,6 +145,9 @@ def check_trace(sess, srv, starttls, out, res, wit, expect_fail):
     return problems
 
 
+CALLS = [0]
+
+
 def run_connect(case, res: Result):
     starttls, cap, si, tls, mech, step, f = case
     pre, post = SASLS[si]
@@ -153,7 +158,13 @@ def run_connect(case, res: Result):
                     post_tls_caps=post if post in (None, "absent") else list(post),
                     starttls=cap, faults=faults, encodings="quoted")
     sess = mslab.Session(srv, tls_outcome=tls)
-    out = sess.call("connect", LOGIN, PW, starttls=starttls, authmech=mech)
+    CALLS[0] += 1
+    if CALLS[0] % 2:
+        # the documented positional order: connect(login, password, authz_id, starttls, authmech)
+        out = sess.call("connect", LOGIN, PW, "", starttls, mech)
+        res.count("connects-with-positional-arguments")
+    else:
+        out = sess.call("connect", LOGIN, PW, starttls=starttls, authmech=mech)
     res.count("connect-configurations")
     if any(e[2] == "tls-handshake" for e in sess.wire.events):
         res.count("tls-handshakes")
@@ -320,8 +331,12 @@ def run_random_histories(shard, res: Result):
                                         scripts={b"s": b"keep;\r\n"})
                 sess.wire = ms.Wire()
                 sess.tls_outcome = tls
-                out = sess.call("connect", LOGIN, PW, starttls=starttls,
-                                authmech=rng.choice([None, "PLAIN", "LOGIN"]))
+                if rng.random() < 0.5:
+                    out = sess.call("connect", LOGIN, PW, "", starttls,
+                                    rng.choice([None, "PLAIN", "LOGIN"]))
+                else:
+                    out = sess.call("connect", LOGIN, PW, starttls=starttls,
+                                    authmech=rng.choice([None, "PLAIN", "LOGIN"]))
                 trace.append(["connect", {"starttls": starttls, "fault": [step, f], "tls": tls,
                                           "announces_STARTTLS": cap, "sasl": [pre, post]},
                               repr(out)[:80]])
